@@ -72,6 +72,18 @@ func checkC07(c *Ctx) {
 	all := map[string]data.Value{"x": data.Int(2), "y": data.Int(4), "c": data.Bool(true), "l": data.List{data.Int(3)}, "m": data.Map{"x": data.String("mx")}, "extra": data.Int(1), "n": data.Int(1)}
 
 	dupFirst := false
+	dupLib := 0
+	// stricter second definitions of every library template (one more required param, used in the body)
+	strictLib := func() *File {
+		f := &File{Name: "strict.soy", NS: "lib.deep"}
+		for _, t := range lib[0].Tmpls {
+			t2 := *t
+			t2.Params = append(append([]Param{}, t.Params...), Param{"zz", false})
+			t2.Body = append(append([]*Cmd{}, t.Body...), pr(vr("zz")))
+			f.Tmpls = append(f.Tmpls, &t2)
+		}
+		return f
+	}
 	one := func(body []*Cmd, params []Param, variant int, mut string, both int) {
 		if !c.Mine() {
 			return
@@ -93,6 +105,15 @@ func checkC07(c *Ctx) {
 			// first definition, and the rules still hold for every definition in the bundle.
 			first := &File{Name: "first.soy", NS: "app.main", Tmpls: []*Tmpl{{NS: "app.main", Name: "entry", Body: []*Cmd{txt("first definition")}}}}
 			files = append([]*File{first}, files...)
+		}
+		switch dupLib {
+		case 1:
+			// a later file defines the library templates again, with one more required param: calls
+			// resolve to the first definitions, so every decision stays what it was
+			files = append(files, strictLib())
+		case 2:
+			// ... and the same file first: now the strict definitions are the ones that are called
+			files = append([]*File{strictLib()}, files...)
 		}
 		rules := checkRules(files)
 		if rules["ambiguous-param-use"] {
@@ -142,7 +163,10 @@ func checkC07(c *Ctx) {
 		if v.Exhausted {
 			obs = "hang"
 		}
-		if dupFirst {
+		if dupLib != 0 {
+			c.Observe(fmt.Sprintf("duplicate library %d\x00", dupLib)+main.src(), obs)
+			cs.Files["strict.soy (position "+map[int]string{1: "last", 2: "first"}[dupLib]+")"] = strictLib().src()
+		} else if dupFirst {
 			c.Observe("second definition\x00"+main.src(), obs)
 			cs.Files["first.soy"] = files[0].src()
 		} else {
@@ -234,6 +258,12 @@ func checkC07(c *Ctx) {
 		one(body, params, variant, "second-definition", 0)
 		one(body, append(append([]Param{}, params...), Param{Name: "extra"}), variant, "second-definition+unused-param", 0)
 		dupFirst = false
+		// (0c) every library template defined twice with different param lists, in both file orders
+		dupLib = 1
+		one(body, params, variant, "later-duplicate-callees", 0)
+		dupLib = 2
+		one(body, params, variant, "earlier-duplicate-callees", 0)
+		dupLib = 0
 		// (1) unused param
 		one(body, append(append([]Param{}, params...), Param{Name: "extra"}), variant, "add-unused-param", 0)
 		// (2) both soydoc and header params
